@@ -223,7 +223,7 @@ def base_session_facts(repo):
     if sorted(wiring) != ["execution_dialect", "input_dialect", "output_dialect"]:
         raise Untranslatable(f"__init__ wiring {wiring}")
     # _sanitize_column_name: if self.SANITIZE_COLUMN_NAMES: return name.replace(a, b).replace(c, d); return name
-    san = py2v.find_method(tree, "_BaseSession", "_sanitize_column_name")
+    san = py2v.normalize_func(py2v.find_method(tree, "_BaseSession", "_sanitize_column_name"), rename_locals=False)
     body = [s for s in san.body if not _doc(s)]
     ok = (len(body) == 2 and isinstance(body[0], ast.If) and dotted(body[0].test) == "self.SANITIZE_COLUMN_NAMES"
           and not body[0].orelse and len(body[0].body) == 1 and isinstance(body[0].body[0], ast.Return)
@@ -327,7 +327,9 @@ def engine_facts(repo, e, mixins):
 
 HARMLESS = {"ensure_list", "isinstance", "self._cur.fetchall", "self._to_row", "verify_pandas_installed", "Row",
             "results.append", "case_sensitive_cols.append", "row.asDict", "self._last_df.collect",
-            "self._last_df.toPandas", "str", "row.asDict.items"}
+            "self._last_df.toPandas", "str", "row.asDict.items",
+            # pure value conversions of what the engine returned (they cannot send or render a statement)
+            "float", "int", "bool", "dict", "list", "tuple", "len", "zip", "enumerate", "sorted"}
 
 
 class Sym:
@@ -341,6 +343,8 @@ def sink_sites(fn: ast.FunctionDef, src_name: str):
     `read_sql_query(x, self._conn)` site as an rnd term; plus the result-name path if present."""
     sites, names = [], {}
     env: dict[str, str] = {}
+    fn = py2v.normalize_func(fn, rename_locals=False)      # no docstrings / annotations / logging statements
+    cursors = {"self._cur"}                                # names bound to the cursor (`cursor = self._cur`)
 
     def val(n) -> str:
         """rnd term for a text-valued expression"""
@@ -404,17 +408,31 @@ def sink_sites(fn: ast.FunctionDef, src_name: str):
                             raise Untranslatable(f"{src_name}: {k} assigned on one branch only")
                     continue
                 # guards that do not change what is rendered: skip_rows / description / truthiness of the loop item
-                dt = dotted(t) or (dotted(t.operand) if isinstance(t, ast.UnaryOp) else None)
-                if dt in ("skip_rows", "self._cur.description") or dt in loopvars:
+                # a guard that calls nothing cannot send or render anything itself: both branches are analysed (every execute
+                # site in either is collected); it must not leave the rendered text different on its two branches
+                if not any(isinstance(x, (ast.Call, ast.NamedExpr, ast.Await, ast.Yield)) for x in ast.walk(t)):
+                    saved = dict(env)
                     stmts(st.body, cond)
+                    e1 = dict(env)
+                    env.clear(); env.update(saved)
                     stmts(st.orelse, cond)
+                    for k in set(e1) & set(env):
+                        if e1[k] != env[k]:
+                            raise Untranslatable(f"{src_name}: rendered text {k} differs across `if {ast.unparse(t)[:50]}`")
+                    for k in set(e1) ^ set(env):          # a temporary of one branch goes out of scope after the guard
+                        env.pop(k, None)
                     continue
                 raise Untranslatable(f"{src_name}: if-test {ast.dump(t)[:70]}")
             if isinstance(st, ast.Assign) and len(st.targets) == 1 and isinstance(st.targets[0], ast.Name):
                 tgt = st.targets[0].id
-                if tgt == "sql":
-                    env["sql"] = val(st.value)
+                if dotted(st.value) in cursors:
+                    cursors.add(tgt)                      # cursor = self._cur
                     continue
+                is_text = tgt == "sql" or (isinstance(st.value, ast.Call) and dotted(st.value.func) == "self._to_sql")
+                if is_text:
+                    env[tgt] = val(st.value)              # sql = ... / final_sql = self._to_sql(...)
+                    continue
+                env.pop(tgt, None)
                 scan(st.value)
                 continue
             if isinstance(st, (ast.Assign, ast.AnnAssign, ast.Expr, ast.Return, ast.Assert)):
@@ -438,6 +456,11 @@ def sink_sites(fn: ast.FunctionDef, src_name: str):
                 sites.append(val(c.args[0]))
             elif d == "exp.parse_identifier":
                 names["parse"] = dexp(kw(c, "dialect"))
+            elif d == "exp.to_identifier":
+                # the reported name is taken as data (no dialect involved in reading it)
+                if len(c.args) != 1 or any(k.arg not in ("quoted",) for k in c.keywords):
+                    raise Untranslatable(f"{src_name}: to_identifier arguments")
+                names["parse"] = "DNone"
             elif d == "normalize_string":
                 f, t = kw(c, "from_dialect"), kw(c, "to_dialect")
                 tl = kw(c, "to_string_literal")
@@ -448,6 +471,9 @@ def sink_sites(fn: ast.FunctionDef, src_name: str):
                 pass  # handled through val() at the site that consumes it
             elif d in HARMLESS or d is None and isinstance(c.func, ast.Attribute) and c.func.attr in ("items", "append"):
                 pass
+            elif isinstance(c.func, ast.Attribute) and c.func.attr in ("fetchall", "fetchone", "fetchmany") \
+                    and dotted(c.func.value) in cursors and not c.keywords:
+                pass                                      # reading the result of what was executed
             elif isinstance(c.func, ast.Attribute) and c.func.attr == "sql" and dotted(c.func.value) in loopvars:
                 pass
             else:
@@ -481,6 +507,7 @@ def super_delegate(fn: ast.FunctionDef, name: str):
 
 def execute_body_ok(fn: ast.FunctionDef, src_name: str) -> str:
     """_execute(self, sql) must hand exactly its argument to the cursor (or the Spark session)"""
+    fn = py2v.normalize_func(fn, rename_locals=False)
     calls = [c for c in ast.walk(fn) if isinstance(c, ast.Call)]
     hits = []
     for c in calls:
@@ -497,7 +524,7 @@ def execute_body_ok(fn: ast.FunctionDef, src_name: str) -> str:
 
 
 def to_sql_facts(base_tree):
-    fn = py2v.find_method(base_tree, "_BaseSession", "_to_sql")
+    fn = py2v.normalize_func(py2v.find_method(base_tree, "_BaseSession", "_to_sql"), rename_locals=False)
     body = [s for s in fn.body if not _doc(s)]
     if len(body) != 1 or not isinstance(body[0], ast.Return) or not isinstance(body[0].value, ast.Call) \
             or dotted(body[0].value.func) != "normalize_string":
@@ -855,6 +882,47 @@ def dispatch_facts(repo):
 
 
 # ------------------------------------------------------------------------------------------------
+
+def c01_core_text(repo: str) -> str:
+    """The part of Gen.C01Facts that C12 depends on (clause configuration gen_cfg + decorator_table), assembled from
+    translate/c01_facts' own component translators.  Used only when c01_facts.generate fails in a part C12 does not use (the
+    ORDER BY key flags are C01's); any failure of a component used here still fails closed."""
+    from translate import c01_facts as c1
+    ops_tree, ops_src = py2v.load(os.path.join(repo, "sqlframe/base/operations.py"))
+    df_tree, df_src = py2v.load(os.path.join(repo, "sqlframe/base/dataframe.py"))
+    gr_tree, _ = py2v.load(os.path.join(repo, "sqlframe/base/group.py"))
+    vals = c1.enum_values(ops_tree)
+    w_df = c1.wrapper_facts(ops_tree, ops_src, "operation", "self")
+    w_gr = c1.wrapper_facts(ops_tree, ops_src, "group_operation", "self._df")
+    decos = c1.method_decorators(df_tree, "BaseDataFrame", "operation")
+    gdecos = c1.method_decorators(gr_tree, "_BaseGroupedData", "group_operation")
+    oa = c1.order_append(df_tree)
+    lm, _ = c1.limit_merge(df_tree, df_src)
+    sa = c1.select_append_default(df_tree)
+    for n, m in c1.NAMES.items():
+        if decos.get(m) is None:
+            raise Untranslatable(f"method {m} has no @operation decorator")
+    b = lambda x: "true" if x else "false"
+    L = ["(* GENERATED from /repo by translate/c12_facts.c01_core_text (c01_facts.generate failed elsewhere) -- do not edit *)",
+         "From SF Require Import Model.Chain.", "Open Scope Z_scope.",
+         "Definition rank (k : opk) : Z := match k with " + " | ".join(f"{k} => ({vals[k]})" for k in c1.OPK) + " end.",
+         "Definition opk_ltb a b := Z.ltb (rank a) (rank b).", "Definition opk_leb a b := Z.leb (rank a) (rank b).",
+         "Definition opk_gtb a b := Z.gtb (rank a) (rank b).", "Definition opk_geb a b := Z.geb (rank a) (rank b).",
+         f"Definition wrap_needed_df (last_op new_op : opk) : bool := {w_df['test']}.",
+         f"Definition wrap_needed_group (last_op new_op : opk) : bool := {w_gr['test']}.",
+         f"Definition new_kind_df (op last_op : opk) : opk := {w_df['new_kind']}.",
+         f"Definition new_kind_group (op last_op : opk) : opk := {w_gr['new_kind']}.",
+         f"Definition init_wraps_df : bool := {b(w_df['init_wraps'])}.", f"Definition init_wraps_group : bool := {b(w_gr['init_wraps'])}.",
+         "Definition kind_of (n : opname) : opk := match n with " + " | ".join(f"{n} => {decos[m]}" for n, m in c1.NAMES.items()) + " end.",
+         f"Definition order_append : bool := {b(oa)}.", f"Definition select_append_default : bool := {b(sa)}.",
+         f"Definition limit_merge (num m : Z) : Z := {lm}.",
+         "Definition gen_cfg : cfg := mkCfg wrap_needed_df kind_of init_wraps_df order_append limit_merge.",
+         "Definition decorator_table : list (string * option opk) := [",
+         ";\n".join(f'  ("{m}"%string, {("Some " + k) if k else "None"})' for m, k in sorted(decos.items()) if not m.startswith("__")),
+         "].",
+         f"Definition group_agg_kind : option opk := {('Some ' + gdecos['agg']) if gdecos.get('agg') else 'None'}."]
+    return "\n".join(L) + "\n"
+
 
 def coq_opt(x, f=lambda v: v):
     return "None" if x is None else f"(Some {f(x)})"
